@@ -18,7 +18,7 @@ R.objtype("WordAnon", pyclass=MS + "SensitiveWordAnonymizer",
 R.objtype("FileAnon", pyclass=M + "FileAnonymizer",
           fields={"undo_ip_anon": BOOL, "anonymizer4": Opt(O4), "anonymizer6": Opt(ObjT("Ip6")),
                   "anonymizer_as_num": Opt(ObjT("AsNum")), "anonymizer_sensitive_word": Opt(ObjT("WordAnon")),
-                  "compiled_regexes": Opt(Opq("ReGroups")), "pwd_lookup": Opt(MapT(STR, STR)), "salt": Opt(STR),
+                  "compiled_regexes": Opt(Ty("list", Opq("ReGroup"))), "pwd_lookup": Opt(MapT(STR, STR)), "salt": Opt(STR),
                   "reserved_words": Ty("setcell", STR)})
 FA = ObjT("FileAnon")
 
@@ -76,7 +76,7 @@ R.contract(MS + "SensitiveWordAnonymizer.__init__",
                     # reserved words are kept in lower case
                     "all(implies(w in reserved_words, lower(w) in self.reserved_words) for w in Str)",
                     "MemoOK(self)", "ConflictOK(self)"])
-R.contract(MS + "generate_default_sensitive_item_regexes", trusted=True, types={}, returns=Opq("ReGroups"), pure=True,
+R.contract(MS + "generate_default_sensitive_item_regexes", trusted=True, types={}, returns=Ty("list", Opq("ReGroup")),
            ensures=["True"])
 
 
@@ -163,9 +163,6 @@ def _out_write_rec(eng, args, kw, node):
 
 R.objtypes["OutFile"].ext_methods["write"] = _out_write_rec
 
-R.contract(MS + "replace_matching_item", trusted=True, record=True,
-           types={"compiled_regexes": Opq("ReGroups"), "input_line": STR, "pwd_lookup": MapT(STR, STR), "salt": Opt(STR),
-                  "reserved_words": SetT(STR)}, returns=STR, modifies=["pwd_lookup", "log"], ensures=["True"])
 R.contract(MS + "SensitiveWordAnonymizer.anonymize", record=True,
            types={"self": ObjT("WordAnon"), "line": STR}, returns=STR, modifies=["self.sens_word_replacements"],
            requires=["MemoOK(self)"],
